@@ -204,6 +204,15 @@ func run(sel int, in []int64) []int64 {
 			acc = api.SaturatingAdd(acc, api.SaturatingMul(in[1+2*i], in[2+2*i]))
 		}
 		return []int64{acc}
+	case 4:
+		// in[0] = amount (integer in the unit of the resource), in[1] = which resource
+		names := []v1.ResourceName{v1.ResourceCPU, v1.ResourceMemory, "nvidia.com/gpu", v1.ResourcePods}
+		n := names[int(in[1])%len(names)]
+		back := api.ResQuantity2Float64(n, api.ResFloat642Quantity(n, float64(in[0])))
+		if back != math.Trunc(back) {
+			panic("round trip left the integers")
+		}
+		return []int64{int64(back)}
 	case 10:
 		tr := &tokReader{t: in, i: 1}
 		r := decRes(tr)
@@ -319,6 +328,8 @@ func laws(sel int, in, got []int64, law func(lsel int, lin []int64, sig string))
 		law(102, []int64{in[0], in[1], got[0]}, "")
 	case 3:
 		law(103, append(append([]int64{}, in...), got[0]), "")
+	case 4:
+		law(104, []int64{in[0], got[0]}, "")
 	case 10:
 		tr := &tokReader{t: in, i: 1}
 		r, rr := decRes(tr), decRes(tr)
@@ -377,6 +388,14 @@ func gen(rng *vh.Rng, n int, emit func(id string, sel int, in []int64, kind stri
 			in = append(in, c, t)
 		}
 		emit(fmt.Sprintf("dra-%d", i), 3, in, "dra_accumulate", m >= 2, nil)
+	}
+	// quantity round trip: integers up to 2^53 (exactly representable), all four unit rules
+	for i := 0; i < n/2+1; i++ {
+		x := int64(rng.U64() >> uint(11+rng.Intn(53)))
+		if rng.Chance(1, 6) {
+			x = vh.Pick(rng, []int64{0, 1, 999, 1000, 1 << 20, (1 << 53) - 1, 1 << 53, 1 << 40})
+		}
+		emit(fmt.Sprintf("quantity-%d", i), 4, []int64{x, int64(rng.Intn(4))}, "quantity_roundtrip", x > 0, nil)
 	}
 	// resource vectors
 	for i := 0; i < 3*n; i++ {
